@@ -167,6 +167,13 @@ def children(cur):
     if is_map(cur):
         return list(dict.values(cur))
     if is_seq(cur):
+        # glom asks the 'keys' handler first and the 'iterate' handler only when no 'keys' handler
+        # exists.  list has no 'keys' registration, so a list SUBCLASS whose instances carry a
+        # __dict__ is "object-style" for '*': its matches are its instance attributes, not its items
+        # (pristine behaviour; what '*' matches is the read side's business, not C11/C12's).
+        d = getattr(cur, '__dict__', None)
+        if d is not None and hasattr(d, 'keys'):
+            return list(d.values())
         return list(cur)
     a = _attrs(cur)
     if a is not None and type(cur).__name__ != 'SimObj':
